@@ -317,12 +317,19 @@ def check_case(case, acc):
             gotids = set(sub.index.get_level_values(0))
             if gotids != pair_ids(fn) or len(sub) != 2 * len(gotids):
                 bad("selection:" + key, "selection %s=%r returns row pairs %s, matching pairs are %s" % (key, val, sorted(gotids), sorted(pair_ids(fn))))
-        lo, hi = 5.0, 10.5
-        acc.exec()
-        sub = an.filter_by_distance((lo, hi))
-        wantids = pair_ids(lambda r: r["distance"] is not None and not (isinstance(r["distance"], float) and math.isnan(r["distance"])) and lo <= r["distance"] < hi)
-        if set(sub.index.get_level_values(0)) != wantids:
-            bad("selection:distance", "distance selection [%s, %s) returns pairs %s, matching pairs are %s" % (lo, hi, sorted(set(sub.index.get_level_values(0))), sorted(wantids)))
+        # distance windows: a wide one, and for every pair whose two rows lie at different distances a narrow window strictly between them
+        windows = [(5.0, 10.5)]
+        for idx, grp in df.groupby(level=0):
+            ds = sorted(float(d) for d in grp["distance"].values if d is not None and not (isinstance(d, float) and math.isnan(d)))
+            if len(ds) == 2 and ds[1] - ds[0] > 1e-3:
+                mid, q = 0.5 * (ds[0] + ds[1]), 0.25 * (ds[1] - ds[0])
+                windows.append((mid - q, mid + q))
+        for lo, hi in windows[:6]:
+            acc.exec()
+            sub = an.filter_by_distance((lo, hi))
+            wantids = pair_ids(lambda r: r["distance"] is not None and not (isinstance(r["distance"], float) and math.isnan(r["distance"])) and lo <= r["distance"] < hi)
+            if set(sub.index.get_level_values(0)) != wantids:
+                bad("selection:distance", "distance selection [%s, %s) returns pairs %s, matching pairs are %s" % (lo, hi, sorted(set(sub.index.get_level_values(0))), sorted(wantids)))
         # the area index of every row pair is consistent with the ego-frame position of the object it is derived from (the estimate
         # of a pair, the ground truth of a GT-only row), judged against the analyzer's own area rectangles
         ur, bl = an.upper_rights, an.bottom_lefts
